@@ -188,6 +188,8 @@ class C05(Prop):
         ops = gen.gen_history(rng, cfg, n, self.REQS, self.WEIGHTS,
                               fault_p=0.7, death_p=0.2,
                               second_req_kinds=self.SECOND)
+        if rng.random() < 0.15:
+            gen.add_on_demand(rng, cfg, ops)
         return {'cfg': cfg, 'ops': ops}
 
     def run(self, case):
